@@ -141,8 +141,12 @@ def run_check(pid, tier, replay=None):
         vh = C.build_harness(scratch)
         if replay:
             obj = json.load(open(replay))
-            res, crashes = run_cases(vh, scratch, [obj["case"]], workers=1)
-            bad = crashes or [m for r in res for m in (r.get("mismatches") or []) if m["kind"] in ("ref", "panic")]
+            if obj.get("kind") == "sources":
+                res, crashes = run_cases(vh, scratch, obj["cases"], workers=1, subcmd="sources")
+                bad = crashes or [m for r in res for m in (r.get("mismatches") or []) if m.get("prop") == "C20"]
+            else:
+                res, crashes = run_cases(vh, scratch, [obj["case"]], workers=1)
+                bad = crashes or [m for r in res for m in (r.get("mismatches") or []) if m["kind"] in ("ref", "panic", "ctx")]
             print("replay:", "reproduced" if bad else "not reproduced", (crashes or bad)[:1])
             if bad:
                 print("VIOLATION property=%s replay=%s  (reproduced)" % (pid, replay))
@@ -179,6 +183,30 @@ def run_check(pid, tier, replay=None):
         results, crashes = run_cases(vh, scratch, all_cases)
         byid = {c["id"]: c for c in all_cases}
         violations, diverg = [], []
+        # transforming *decoders*: the config types of Sources.tla (one field, every kind / tag style / alias pattern) decoded by
+        # wrapped decoder instances that live for the whole worker process and so meet many config types
+        from . import srccheck as S
+        d = scratch.sub("c20src")
+        S.write_model(d, S.ALL_KINDS, ["snake", "kebab"], ["struct", "pstruct"], 1, 1, True, False)
+        sres = C.run_tlc(d, "MCSources", "S.cfg", timeout=1500)
+        if not sres.ok:
+            raise C.Inconclusive("Sources.tla violates its own properties: specification alarm\n" + sres.out[-1500:])
+        scases = S.cases_of(sres.out)
+        rng.shuffle(scases)
+        for i, c in enumerate(scases):
+            c.update(id="t%d" % i, seed=i, garbage="")
+        sresults, scrashes = run_cases(vh, scratch, scases, workers=12, subcmd="sources")
+        sby = {c["id"]: c for c in scases}
+        dec_hits = 0
+        for r in sresults:
+            for m in r.get("mismatches") or []:
+                if m.get("prop") == "C20":
+                    dec_hits += 1
+                    if len(violations) < 20:
+                        prior = sby["t%d" % (int(r["id"][1:]) % 12)]        # the first config type the same worker's decoders met
+                        rp = C.write_replay(pid, r["id"], {"property": pid, "kind": "sources", "cases": [prior, sby[r["id"]]], "mismatches": [m]})
+                        violations.append(("config type %s [%s]: %s" % (r["id"], m.get("src"), m["detail"][:200]), rp))
+        decoder_run = {"config_types": len(scases), "distinct_states": sres.distinct, "mismatches": dec_hits, "crashes": len(scrashes)}
         for cid, first, stderr in crashes:
             rp = C.write_replay(pid, cid, {"property": pid, "kind": "wrap", "case": byid.get(cid), "crash": stderr})
             violations.append(("process crashed while executing case %s: %s" % (cid, first), rp))
@@ -198,6 +226,7 @@ def run_check(pid, tier, replay=None):
             "states": states, "transitions": trans, "traces_validated_against_impl": len(results),
             "samples": [all_cases[len(all_cases) // 2], all_cases[-1]],
             "evaluations": len(all_cases), "distinct_nontrivial": nontriv, "exhaustive": tier == "thorough",
+            "transforming_decoders": decoder_run,
             "rule": "every operation sequence of Wrap.tla up to MaxOps (all inner-source kinds x mangler lists x values x primary/alias "
                     "spelling) is a case; non-trivial = at least two operations and at least one wrapped inner source; distinct by content",
             "model_runs": model_runs, "toggle_selftest": selftest, "divergences": diverg[:5], "divergence_count": len(diverg),
